@@ -13,7 +13,7 @@ MANIFEST = dict(
          "histories on the real ports.Manager, on real proxy objects and on an in-process frps with scripted clients.",
     note="Trusted: Coq kernel+VM; harness transcription; the kernel's port semantics enter only through the probe/listen oracles "
          "(observed by bind scans on a private loopback range). Steps of the layered model are the handlers' sequential semantics; "
-         "interleavings inside one registration (between Acquire and Listen) are outside the proved statements and named in design/C09.md.",
+         "interleavings inside one registration are covered by the schedule model (Model/PortSched.v, all schedules proved, five replayed through gates).",
     technique="Coq proof (invariants by induction over operation histories, all oracle values) + differential correspondence via vm_compute",
     design="4/C09")
 
@@ -52,6 +52,20 @@ def recipe(c: Check):
         c.broken.append(dict(kind="coverage", name="driver portsys never exercised the same-port-back clause", detail=""))
     need(c, "portsys", ["NY_QUOTA_REFUSED", "NY_EXISTS_REFUSED", "NY_REGISTERED", "NY_RUN_REFUSED", "NY_CLOSE_OWN",
                         "NY_CLOSE_UNKNOWN", "NY_SESSION_END", "NY_LATE_CLOSE"])
+    st = c.run_driver("sched", q(c.tier, 20, 200), shards=q(c.tier, 4, 8))
+    need(c, "sched", ["NS_REGISTERED", "NS_NAME_EXISTS"])
+    gate_in_source = False
+    try:
+        gate_in_source = "proxy.tcp.after_acquire" in open(os.path.join(os.environ.get("VERIF_REPO", "/repo"), "server/proxy/tcp.go")).read()
+    except OSError:
+        pass
+    if gate_in_source:
+        # the Acquire|Listen gate is compiled in: the three window schedules must have been replayed
+        need(c, "sched", ["NS_LISTENFAIL", "NS_PORT_USED"])
+        if st and not st.get("acquire_gate_present"):
+            c.broken.append(dict(kind="coverage", name="gate proxy.tcp.after_acquire is in the source but never fired", detail=""))
+    else:
+        c.notes.append("gate proxy.tcp.after_acquire is not in this tree: the three Acquire|Listen window schedules were skipped")
     return c.finish(
         rule="ports driver: histories (6-27 ops) of Acquire/Release on the real ports.Manager (tcp and udp) over 127.0.9.1:20900+, "
              "ten allowPorts shapes (range, singles, overlapping, Single-with-range, port 0 / negative / >65535 listed, empty, ...), requested ports from "
@@ -64,6 +78,10 @@ def recipe(c: Check):
              "reach the proxy. portsys driver: in-process frps on 127.0.9.2 with allowPorts and maxPortsPerClient in {0,1,2,3}, scripted "
              "pkg/msg clients: registrations (tcp/udp/grouped/stcp, duplicate names, over quota, refused ports), closes of own and unknown "
              "names, session ends with re-login, late udp Close, squatters; observed: NewProxyResp.RemoteAddr/Error, tables, bind scans. "
+             "sched driver: five interleavings of two sessions' registrations / closes (duplicate names racing through Exist|Run|Add, "
+             "close between name check and Acquire, remembered port asked for while another registration holds it unbound, same port "
+             "in the Acquire|Listen window, squatter in that window) realised on the in-process frps by parking handler goroutines at "
+             "verifhook gates, replayed on Model/PortSched.v. "
              "distinct = distinct case text; non-trivial = at least one successful acquisition/registration",
         assumptions=["OS probe (bind+close) and the random map iteration are oracles: the harness passes the observed values, the model rejects illegal ones",
                      "the 24 h reserved-entry cleaner is over-approximated in the model (may drop any entry) and not exercised"])
